@@ -13,6 +13,8 @@ import PharmpyModel.C05.Matrix
             (setdose C (D ...)) (adddose C (D ...)) (rmdose C admid)
             (setlag C e) (setbio C e) (setinput C e)
             (subs ((e e') ...) ((N N') ...)) (roundtrip)
+            [subs: a table rate ↦ substituted rate and a table compartment ↦ substituted compartment, in any
+             order; the model builds the relabel mapping itself, in node order]
   N = output | C;  C = (comp name amount (D ...) input lag bio)
   D = (bolus amount admid) | (inf amount admid (rate)? (duration)?)   with () for None
   admid = integer | none
